@@ -17,6 +17,7 @@ type fop struct {
 	Tags   []string `json:"tags"`
 	ID     string   `json:"id"`
 	Schema string   `json:"schema,omitempty"` // component schema the operation's 200 response refers to
+	PP     bool     `json:"pp,omitempty"`     // the operation's path item declares shared parameters (a component header and an inline query)
 }
 type fcfg struct {
 	It []string `json:"it"`
@@ -64,6 +65,7 @@ func keepOracle(c fcfg, o fop) bool {
 
 func buildFilterDoc(ops []fop, schemas []string) J {
 	paths := J{}
+	pp := false
 	for _, o := range ops {
 		pi := getJ(paths, o.Path)
 		resp := J{"description": "d"}
@@ -79,10 +81,21 @@ func buildFilterDoc(ops []fop, schemas []string) J {
 			op["tags"] = ts
 		}
 		pi[strings.ToLower(o.Method)] = op
+		if o.PP {
+			pi["parameters"] = []interface{}{J{"$ref": "#/components/parameters/Tenant"}, J{"name": "limit", "in": "query", "schema": J{"type": "integer"}}}
+			pp = true
+		}
 	}
 	doc := J{"openapi": "3.0.3", "info": J{"title": "t", "version": "1"}, "paths": paths}
+	if pp {
+		doc["components"] = J{"schemas": J{"TenantId": J{"type": "string"}},
+			"parameters": J{"Tenant": J{"name": "X-Tenant", "in": "header", "schema": J{"$ref": "#/components/schemas/TenantId"}}}}
+	}
 	if len(schemas) > 0 {
 		sc := J{}
+		if pp {
+			sc["TenantId"] = J{"type": "string"}
+		}
 		for i, s := range schemas {
 			sch := J{"type": "object", "properties": J{"v": J{"type": "string"}}}
 			if i+1 < len(schemas) && i%2 == 0 {
@@ -91,7 +104,11 @@ func buildFilterDoc(ops []fop, schemas []string) J {
 			}
 			sc[s] = sch
 		}
-		doc["components"] = J{"schemas": sc}
+		comps := J{"schemas": sc}
+		if pp {
+			comps["parameters"] = doc["components"].(J)["parameters"]
+		}
+		doc["components"] = comps
 	}
 	return doc
 }
@@ -239,9 +256,40 @@ func c16Generate(ctx *Ctx, ops []fop, schemas []string, cfg fcfg, fw string) err
 	if got := specOps(emb); Canon(orEmpty(got)) != Canon(orEmpty(wantOps)) {
 		ctx.Res.Violate(sig("embedded-ops"), fmt.Sprintf("embedded spec has operations %v, filter keeps %v", got, wantOps), replay)
 	}
+	// parameters shared on the path item belong to every operation of the path that is kept
+	ppKept := false
+	for _, op := range ops {
+		if !op.PP || !keepOracle(cfg, op) {
+			continue
+		}
+		ppKept = true
+		fields, ok := structFields(f, op.ID+"Params")
+		if !ok || !contains(fields, "XTenant") || !contains(fields, "Limit") {
+			ctx.Res.Violate("path-level-parameters-lost:"+fw, fmt.Sprintf("kept operation %s of a path with shared parameters X-Tenant and limit: %sParams has fields %v (declared: %v)", op.ID, op.ID, fields, ok), replay)
+		}
+		if pi := emb.Paths.Find(op.Path); pi == nil || len(pi.Parameters) != 2 {
+			ctx.Res.Violate("path-level-parameters-lost-in-embedded:"+fw, fmt.Sprintf("the embedded path item %s of kept operation %s no longer has its two shared parameters", op.Path, op.ID), replay)
+		}
+	}
 	var gotSchemas, wantSchemas []string
 	if emb.Components != nil {
 		gotSchemas = SortedKeys(emb.Components.Schemas)
+	}
+	if ppKept {
+		needed["TenantId"] = true
+		if emb.Components == nil || emb.Components.Parameters["Tenant"] == nil {
+			ctx.Res.Violate("path-level-parameter-component-pruned:"+fw, "component parameter Tenant, referenced from the path item of a kept operation, is gone from the embedded specification", replay)
+		}
+	} else {
+		// a path item that lost all its operations but still lists shared parameters: the statement does not say
+		// whether those count as used
+		var g2 []string
+		for _, s := range gotSchemas {
+			if s != "TenantId" {
+				g2 = append(g2, s)
+			}
+		}
+		gotSchemas = g2
 	}
 	wantSchemas = SortedKeys(needed)
 	if Canon(orEmpty(gotSchemas)) != Canon(orEmpty(wantSchemas)) {
@@ -251,7 +299,7 @@ func c16Generate(ctx *Ctx, ops []fop, schemas []string, cfg fcfg, fw string) err
 	for _, s := range wantSchemas {
 		found := false
 		for _, d := range f.Decls {
-			if strings.Contains(src, "type "+s+" struct") {
+			if strings.Contains(src, "type "+s+" struct") || strings.Contains(src, "type "+s+" = ") {
 				found = true
 			}
 			_ = d
@@ -280,7 +328,7 @@ func subsets(xs []string) [][]string {
 
 func runC16(ctx *Ctx) error {
 	ctx.Res.Rule = "exhaustive: all tag assignments (subsets of {a,b,c}) of 1..2 operations x all include/exclude tag lists over {a,b,c,z}; the same with ids {OpA,OpB} x all include/exclude id lists over {OpA,OpB,Nope}; " +
-		"then 3-operation documents with mixed tag+id filters (random), and full Generate runs on 7 frameworks checking ServerInterface, ClientInterface, embedded-spec operations and pruned schemas; non-trivial = some filter list non-empty and at least one operation"
+		"then 3-operation documents with mixed tag+id filters (random), and full Generate runs on 7 frameworks checking ServerInterface, ClientInterface, embedded-spec operations, pruned schemas and, on paths that declare shared parameters (a component header parameter and an inline query parameter), the parameter object of every kept operation and the path item of the embedded specification; non-trivial = some filter list non-empty and at least one operation"
 	tagSets := subsets([]string{"a", "b", "c"})
 	lists := subsets([]string{"a", "b", "c", "z"})
 	mk := func(i int, tags []string) fop {
@@ -390,6 +438,10 @@ func runC16(ctx *Ctx) error {
 			if r.Chance(70) {
 				ops2[j].Schema = schemas[r.Intn(len(schemas))]
 			}
+		}
+		ppPaths := map[string]bool{"/p": r.Chance(50), "/q": r.Chance(30), "/r": r.Chance(30)}
+		for j := range ops2 {
+			ops2[j].PP = ppPaths[ops2[j].Path]
 		}
 		cfg := fcfg{It: pick(r, alphabet, 2), Et: pick(r, alphabet, 1), Ii: []string{}, Ei: []string{}}
 		if r.Chance(40) {
